@@ -14,7 +14,7 @@
 From Coq Require Import Lia.
 From ChitchatModel Require Import Base SMap Ids Bytes Params NodeState Stream DeltaWire Message Cluster
   FD Chitchat World Monitors SMap_lemmas NodeState_lemmas Inv Compute_lemmas NodeInv Truth NodeTruth Weak Exact
-  Reach ReachExact GExec Monitors_lemmas.
+  Reach ReachExact GExec Monitors_lemmas Catchup_lemmas CatchupReach.
 
 Section C02.
   Variable zc : bytes -> option bytes.
@@ -62,6 +62,22 @@ Section C02.
     intros ops g Hrun a n X c Hn Hc.
     destruct (reachable_exact zc zc_len g (grun_reachable zc true ops g Hrun)) as [_ He _].
     destruct (He a n Hn X c Hc). apply hold_compl_exact; assumption.
+  Qed.
+
+  (* the same statement when, besides gossip, any node may at any time be fed — through the external
+     catch-up entry point reset_node_state_if_update — a state of any member fetched from any node
+     at any earlier moment ([creachable], CatchupReach.v; see C18) *)
+  Theorem C02_exact_up_to_frontier_with_honest_catchups : forall g, creachable zc g ->
+    forall a n X c, node_at g a = Some n -> nm_get X (cs_nodes (nd_cs n)) = Some c ->
+    forall k w, latest (g_T g) X k w -> lw_ver w <= c_max c ->
+      (exists v, kget k (c_kvs c) = Some v /\ entry_of k v = w)
+      \/ (mscheduled (lw_st w) = true /\ lw_ver w <= c_gc c /\ kget k (c_kvs c) = None).
+  Proof.
+    intros g Hr a n X c Hn Hc k w Hl Hle.
+    destruct (creachable_exact zc zc_len g Hr) as [_ He _].
+    destruct (He a n Hn X c Hc) as [Hh Hco].
+    destruct (hold_compl_exact _ _ _ Hh Hco k w Hl Hle) as [(v & Hv & Hev)|H]; [left|right; exact H].
+    destruct Hl as (_ & Hk & _). rewrite Hk in *. exists v. auto.
   Qed.
 End C02.
 
@@ -169,6 +185,7 @@ Theorem C02_monitor_is_the_statement : forall L c, versions_distinct L ->
 Proof. exact c02_ok_iff. Qed.
 
 Print Assumptions C02_exact_up_to_frontier.
+Print Assumptions C02_exact_up_to_frontier_with_honest_catchups.
 Print Assumptions C02_monitor_is_the_statement.
 Print Assumptions C02_no_resurrection.
 Print Assumptions C02_messages_in_flight_exact.
